@@ -63,6 +63,20 @@ Theorem farkas_path :
 Proof. exact FarkasItp.farkas_path. Qed.
 Print Assumptions farkas_path.
 
+(* Decomposed Farkas interpolants (:interpolation-lra-algorithm 4 / 5) do NOT meet the two-colouring contract: the same A-side
+   inequalities admit different decompositions, getDecomposedInterpolant picks its basis from the order of the explanation, and
+   the conjunction obtained for the smaller A side does not imply every conjunct obtained for the larger one.  Genuine defect
+   w.r.t. C09 ("under all interpolation algorithms"); the witness is the A side of corpus/C09/path_decomposed_farkas.smt2 with the
+   two decompositions the solver prints for the cuts 1 and 2 of (get-interpolants (and c0 c3 c2 c4 c1) b2 b1). *)
+Theorem decomposed_path_refuted :
+  (forall e, In e d_es -> sideA e = true /\ (comb d_al1 d_bs1 e == e_coeff e)%Q /\ (comb d_al2 d_bs2 e == e_coeff e)%Q)
+  /\ (forall b e, In b (d_bs1 ++ d_bs2) -> In e d_es -> (0 <= b e)%Q)
+  /\ (forall al, In al (d_al1 ++ d_al2) -> (0 < al)%Q)
+  /\ (forall c, In c (decomposed_itp d_bs1 d_es) -> holds d_a c)
+  /\ (exists c, In c (decomposed_itp d_bs2 d_es) /\ ~ holds d_a c).
+Proof. exact FarkasItp.decomposed_path_refuted. Qed.
+Print Assumptions decomposed_path_refuted.
+
 (* ---- non-vacuity: three partitions  {p} | {not p \/ q} | {not q},  groups (0) (1) (2) ------------- *)
 Definition ex_input : input_t := [ ([(0, true)], [0]); ([(0, false); (1, true)], [1]); ([(1, false)], [2]) ].
 Definition ex_proof : proof :=
